@@ -32,7 +32,7 @@ for d in sorted(glob.glob('/verif/seeded/C*_*')):
     if not viol:
         # the change is filed under this property but may be decided by the check of a related property (refit histories are C09's subject)
         other = {}
-        for q in ['C09', 'C08', 'C01']:
+        for q in ['C09', 'C08', 'C01', 'C03']:
             if q == pid: continue
             p2 = subprocess.run(['./vcheck', q], cwd='/verif', env=env, capture_output=True, text=True)
             v2 = [l for l in p2.stdout.splitlines() if l.startswith('VIOLATION')]
